@@ -480,6 +480,13 @@ mod e2e {
                     "GET / HTTP/1.1\r\nOrigin: https://a.example\rSet-Cookie:x=1\r\n\r\n", "GET / HTTP/1.1\r\nRange: bytes=0-1\r\nX: \u{7f}\r\n\r\n"] {
             add(&format!("raw {:?}", raw), raw.to_string());
         }
+        for n in [63usize, 127, 255, 256, 511, 1023, 4095] {
+            for fill in ["a", "\u{e9}", "\u{20ac}"] {
+                let val: String = format!("{}{}{}", "a".repeat(n), fill, "b".repeat(20));
+                v.push((format!("long header value {}+{:?}", n, fill), format!("GET /a.txt HTTP/1.1\r\nHost: localhost\r\nX-Long: {}\r\n\r\n", val).into_bytes()));
+                v.push((format!("long target {}+{:?}", n, fill), format!("GET /{} HTTP/1.1\r\nHost: localhost\r\n\r\n", val).into_bytes()));
+            }
+        }
         v.push(("non-utf8".into(), vec![0xff, 0xfe, b'G', b'E', b'T', b' ', b'/', b'\r', b'\n']));
         v.push(("zeros".into(), vec![0u8; 64]));
         let mut many = b"GET / HTTP/1.1\r\n".to_vec();
